@@ -282,7 +282,19 @@ def install(I, ns):
     def _round(i, a, k):
         if type(a[0]) in (int, float) and (len(a) == 1 or isinstance(a[1], int)):
             return round(*a)
-        raise Unsupported("round on symbolic")
+        if len(a) == 1 or a[1] is None:
+            x = a[0]
+            kd = num_kind(x)
+            if kd == "int":
+                return x
+            if kd == "real":
+                # python rounds halves to even and returns an int
+                zx = to_z3(x, "real")
+                f = z3.ToInt(zx)
+                d = zx - z3.ToReal(f)
+                half = z3.RealVal("1/2")
+                return SV(z3.If(d < half, f, z3.If(d > half, f + 1, z3.If(f % 2 == 0, f, f + 1))), "int")
+        raise Unsupported("round(x, ndigits) on symbolic")
 
     @reg("divmod")
     def _divmod(i, a, k):
